@@ -186,7 +186,7 @@ class Gen:
         if depth <= 0 or self.rng.random() < 0.12:
             return self.leaf(shape)
         kinds = ["un", "bin", "bin", "red", "red", "sub", "sub", "stack", "cat", "lam", "getitem", "outred", "reshape", "einsum",
-                 "opstack", "getslice", "slicesub", "indep"]
+                 "opstack", "getslice", "slicesub", "indep", "cmp"]
         if self.allow is not None:
             kinds = [k for k in kinds if k in self.allow] or ["bin"]
         kind = self.choice(kinds)
@@ -244,6 +244,16 @@ class Gen:
         if op == "truediv":
             r = ("un", "exp", (), r)
         return ("bin", op, (), l, r)
+
+    def k_cmp(self, depth, shape):
+        # a comparison (bounded-integer valued) gating a real expression
+        if self.mode not in ("free", "arith"):
+            return None
+        op = self.choice(["lt", "le", "gt", "ge", "eq", "ne"])
+        gate = ("bin", op, (), self.real(depth - 1, shape), self.real(depth - 1, shape if self.rng.random() < 0.6 else ()))
+        # the gate always multiplies: numpy adds two boolean arrays as logical-or (recorded finding, probed by C01's catalogue), and
+        # normalisation may reassociate a sum so that two gates meet
+        return ("bin", "mul", (), gate, self.real(depth - 1, shape))
 
     def k_red(self, depth, shape):
         e = self.real(depth - 1, shape)
@@ -322,7 +332,7 @@ class Gen:
         nd = len(shape)
         if nd >= 2:
             return None
-        op = self.choice(["sum", "prod", "amax", "amin", "logsumexp", "mean"])
+        op = self.choice(["sum", "prod", "amax", "amin", "logsumexp", "mean", "std", "var"])
         c = self.rng.random()
         if c < 0.5:
             pos = int(self.rng.integers(0, nd + 1))
